@@ -853,7 +853,12 @@ fn gen_attr_value(rng: &mut Rng) -> f32 {
 }
 
 fn gen_clock(rng: &mut Rng) -> f64 {
-    match rng.below(12) {
+    match rng.below(16) {
+        // the rates mods imply: an explicit rate equal to the current mods' rate must still stick
+        12 => 1.0,
+        13 => 1.5,
+        14 => 0.75,
+        15 => 1.0,
         0 => 0.0,
         1 => -1.0,
         2 => 0.01,
